@@ -129,8 +129,119 @@ def check(ctx):
     ok = "get_order_overriding(cls)" in norm(sbo.node)
     ctx.check(ok, "C16.R3", sbo.qualname + ":lookup", sbo.node.body[0], "sort_by_order does not look class-level overrides up", sbo, sbo.node, detail="get_order_overriding(cls)")
 
+    # ---------------- R4: conservation in sort_by_order
+    ctx.rule("C16.R4", "sort_by_order never loses or duplicates an element: each element goes to exactly one bucket; a bucket reached by name only receives elements whose target is an element; the traversal drains every bucket once", floor=8)
+    sb = model.func("apischema.ordering.sort_by_order")
+    fn = sb.node
+    from ..pathcond import parents_of, path_condition
+    pm = parents_of(fn)
+    elts_p = sb.params[1]
+    loops = [n for n in fn.body if isinstance(n, ast.For) and norm(n.iter) == elts_p]
+    ctx.require(len(loops) == 1, f"sort_by_order: classification loop over `{elts_p}` not found")
+    loop = loops[0]
+    ev = norm(loop.target)
+
+    def appends(stmts):
+        lo = hi = 0
+        for st in stmts:
+            if isinstance(st, ast.If):
+                a, b = appends(st.body), appends(st.orelse)
+                if a is None and b is None:
+                    return None
+                a = a or (10, 0)
+                b = b or (10, 0)
+                if a == (10, 0):
+                    lo, hi = lo + b[0], hi + b[1]
+                elif b == (10, 0):
+                    lo, hi = lo + a[0], hi + a[1]
+                else:
+                    lo, hi = lo + min(a[0], b[0]), hi + max(a[1], b[1])
+            elif isinstance(st, ast.Raise):
+                return None  # this path ends by raising
+            else:
+                k = sum(1 for c in ast.walk(st) if isinstance(c, ast.Call) and isinstance(c.func, ast.Attribute) and c.func.attr == "append" and c.args and norm(c.args[0]) == ev)
+                lo, hi = lo + k, hi + k
+        return lo, hi
+
+    cnt = appends(loop.body)
+    ctx.check(cnt == (1, 1), "C16.R4", f"{sb.qualname}:classified-once", loop, f"an element is put in {cnt} buckets depending on the path (expected exactly one on every non-raising path): it is lost or duplicated", sb, loop, detail="exactly one append per path")
+    # buckets
+    buckets = {}
+    for c in ast.walk(loop):
+        if isinstance(c, ast.Call) and isinstance(c.func, ast.Attribute) and c.func.attr == "append" and c.args and norm(c.args[0]) == ev:
+            recv = c.func.value
+            alts = [recv.body, recv.orelse] if isinstance(recv, ast.IfExp) else [recv]
+            for r in alts:
+                if isinstance(r, ast.Subscript) and isinstance(r.value, ast.Name):
+                    buckets.setdefault(r.value.id, []).append((c, r, recv))
+    # how each bucket is drained after the loop
+    rest = fn.body[fn.body.index(loop) + 1:]
+    by_name, by_iter = set(), set()
+    for st in rest:
+        for n in ast.walk(st):
+            if isinstance(n, ast.For) and isinstance(n.iter, ast.Subscript) and isinstance(n.iter.value, ast.Name):
+                b, key = n.iter.value.id, n.iter.slice
+                outer = pm.get(n)
+                while outer is not None and not (isinstance(outer, ast.For) and norm(outer.target) == norm(key)):
+                    outer = pm.get(outer)
+                if outer is not None and b in {x.id for x in ast.walk(outer.iter) if isinstance(x, ast.Name)}:
+                    by_iter.add(b)     # for k in sorted(B): for e in B[k]
+                else:
+                    by_name.add(b)     # for e in B[<name of the current element>]
+    names_sets = {t.targets[0].id for t in fn.body if isinstance(t, ast.Assign) and isinstance(t.targets[0], ast.Name)
+                  and norm(t.value) in (f"set(map({sb.params[2]}, {elts_p}))", f"{{{sb.params[2]}({ev}) for {ev} in {elts_p}}}", f"{{{sb.params[2]}(e) for e in {elts_p}}}")}
+    for b, sites in sorted(buckets.items()):
+        ctx.check(b in by_iter or b in by_name, "C16.R4", f"{sb.qualname}:{b}:drained", sites[0][0], f"bucket `{b}` is filled but never read back into the result", sb, sites[0][0], detail="drained by iteration or by name")
+        if b in by_name and b not in by_iter:
+            for c, r, recv in sites:
+                key = norm(r.slice)
+                conds = [norm(x) for x in ast.walk(path_condition(fn, c, pm)) if isinstance(x, ast.Compare)]
+                if isinstance(recv, ast.IfExp) and r is recv.body:
+                    conds.append(norm(recv.test))
+                ok = any(cd == f"{key} in {ns}" for cd in conds for ns in names_sets)
+                ctx.check(ok, "C16.R4", f"{sb.qualname}:{b}[{key}]", c,
+                          f"`{short(c, 60)}`: bucket `{b}` is only read under the name of an element being emitted; when `{key}` is not the name of an element of this view (a serialized method in the deserialization view) the element is never emitted: the field disappears from the schema / GraphQL type",
+                          sb, c, detail=f"guarded by `{key} in <names of all elements>`")
+    # no re-bucketing between classification and traversal
+    for st in rest:
+        for n in ast.walk(st):
+            mut = None
+            if isinstance(n, ast.Call) and isinstance(n.func, ast.Attribute) and n.func.attr in ("pop", "extend", "append", "clear", "update", "insert", "remove", "popitem", "setdefault"):
+                base = n.func.value
+                while isinstance(base, (ast.Subscript, ast.Attribute)):
+                    base = base.value
+                if isinstance(base, ast.Name) and base.id in buckets:
+                    mut = n
+            if isinstance(n, (ast.Delete,)) and any(isinstance(t, ast.Subscript) and isinstance(t.value, ast.Name) and t.value.id in buckets for t in n.targets):
+                mut = n
+            if isinstance(n, ast.Subscript) and isinstance(n.ctx, ast.Store) and isinstance(n.value, ast.Name) and n.value.id in buckets:
+                mut = n
+            if mut is not None:
+                ctx.fail("C16.R4", f"{sb.qualname}:rebucketing", mut, f"`{short(mut, 60)}` moves elements between buckets after the classification: their position no longer follows the documented rule (declaration order within a group, attached elements next to their target)", sb.module.relpath, mut.lineno)
+    # traversal: the emitting function appends once and recurses into both name buckets
+    emit = [f for f in sb.nested.values() if any(isinstance(c, ast.Call) and norm(c.func) == "result.append" for c in ast.walk(f.node))]
+    ctx.check(len(emit) == 1, "C16.R4", f"{sb.qualname}:emitter", fn.body[-1], "the recursive emitter of sort_by_order was not recognised", sb, fn, detail="one emitter")
+    if len(emit) == 1:
+        e = emit[0]
+        n_app = sum(1 for c in ast.walk(e.node) if isinstance(c, ast.Call) and norm(c.func) == "result.append")
+        rec = {n.iter.value.id for n in ast.walk(e.node) if isinstance(n, ast.For) and isinstance(n.iter, ast.Subscript) and isinstance(n.iter.value, ast.Name) and any(isinstance(c, ast.Call) and norm(c.func) == e.name for c in ast.walk(n))}
+        ctx.check(n_app == 1 and rec == by_name, "C16.R4", f"{sb.qualname}:emitter-shape", e.node, f"the emitter appends {n_app} time(s) and recurses into {sorted(rec)} (name buckets: {sorted(by_name)})", sb, e.node, detail="append once; recurse into every name bucket")
+        order_ok = [norm(n.iter.value) if isinstance(n, ast.For) else "append" for n in e.node.body if isinstance(n, ast.For) or (isinstance(n, ast.Expr) and "result.append" in norm(n))]
+        ctx.check(order_ok == ["before", "append", "after"], "C16.R4", f"{sb.qualname}:emitter-order", e.node, f"emission order is {order_ok}: elements marked before= must precede and after= must follow their target", sb, e.node, detail="before, element, after")
+    # the shortcut returns the single group only when nothing is attached
+    for n in fn.body:
+        if isinstance(n, ast.If) and any(isinstance(x, ast.Return) for x in n.body):
+            t = norm(n.test)
+            ctx.check(all(f"not {b}" in t for b in by_name) and "len(groups) == 1" in t, "C16.R4", f"{sb.qualname}:shortcut", n, "the single-group shortcut does not require the name buckets to be empty: attached elements are lost", sb, n, detail="not after and not before and len(groups) == 1")
+
 
 def mutants(mb):
+    O = "apischema/ordering.py"
+    mb.add_text("after-target-unguarded", O, "            (after[target] if target in names else groups[0]).append(elt)", "            after[target].append(elt)", "C16.R4", "after[target]")
+    mb.add_text("names-from-groups-only", O, "    names = set(map(name, elts))\n", "    names = set()\n", "C16.R4", "[target]")
+    mb.add_text("emitter-order-swapped", O, "        for before_elt in before[elt_name]:\n            add_to_result(before_elt)\n        result.append(elt)\n", "        result.append(elt)\n        for before_elt in before[elt_name]:\n            add_to_result(before_elt)\n", "C16.R4", "emitter-order")
+    mb.add_text("shortcut-ignores-before", O, "    if not after and not before and len(groups) == 1:", "    if not after and len(groups) == 1:", "C16.R4", "shortcut")
+    mb.add_text("classified-twice", O, "        elif ordering.order is not None:\n            groups[ordering.order].append(elt)\n", "        elif ordering.order is not None:\n            groups[ordering.order].append(elt)\n            groups[0].append(elt)\n", "C16.R4", "classified-once")
     O = "apischema/ordering.py"
     S = "apischema/serialization/__init__.py"
     J = "apischema/json_schema/schema.py"
